@@ -246,7 +246,76 @@ func c29client(c *Ctx, m *Module) {
 	c.Floor("incrementSequence-callers", n2, 2)
 }
 
+// c29windowRestore: kfake's duplicate window (the last five batches per producer
+// and partition, including one whose sequence range wraps: nextSeq < firstSeq)
+// is restored entry by entry after a restart; dropping an entry on load makes a
+// retried duplicate of that batch fail with OUT_OF_ORDER_SEQUENCE_NUMBER.
+func c29windowRestore(c *Ctx, m *Module) {
+	rule := "kfake-window-restored-entrywise"
+	f := c.NeedFunc(m, "kfake.Cluster.loadSeqWindows")
+	if f == nil {
+		return
+	}
+	info := f.Info()
+	n := 0
+	ast.Inspect(f.Decl.Body, func(x ast.Node) bool {
+		rs, ok := x.(*ast.RangeStmt)
+		if !ok || !strings.HasSuffix(nosp(exprStr(rs.X)), ".Entries") {
+			return true
+		}
+		n++
+		// no conditional or early continuation inside the loop
+		cond := containsNode(rs.Body, false, func(y ast.Node) bool {
+			switch y.(type) {
+			case *ast.IfStmt, *ast.BranchStmt, *ast.SwitchStmt, *ast.ReturnStmt:
+				return true
+			}
+			return false
+		})
+		var lit *ast.CompositeLit
+		okStore := false
+		for _, st := range rs.Body.List {
+			as, isAs := st.(*ast.AssignStmt)
+			if !isAs || len(as.Lhs) != 1 {
+				continue
+			}
+			ix, isIx := as.Lhs[0].(*ast.IndexExpr)
+			if !isIx || !strings.HasSuffix(nosp(exprStr(ix.X)), ".entries") || exprStr(ix.Index) != exprStr(rs.Key) {
+				continue
+			}
+			lit, _ = as.Rhs[0].(*ast.CompositeLit)
+			okStore = lit != nil
+		}
+		fields := map[string]string{}
+		if lit != nil {
+			for _, e := range lit.Elts {
+				if kv, ok := e.(*ast.KeyValueExpr); ok {
+					fields[exprStr(kv.Key)] = nosp(exprStr(kv.Value))
+				}
+			}
+		}
+		v := exprStr(rs.Value)
+		okMap := fields["firstSeq"] == v+".FirstSeq" && fields["nextSeq"] == v+".NextSeq" && fields["offset"] == v+".Offset"
+		c.Check(!cond && okStore && okMap, rule, f.Key+": every saved window entry is restored", rs.Pos(), m, "entries[i] = {FirstSeq, NextSeq, Offset} for every i, unconditionally", "a saved duplicate-window entry can be skipped or altered on load (e.g. an entry whose sequence range wraps, nextSeq < firstSeq): after a restart the retried duplicate of that batch is rejected as out of order instead of being answered with its original offset")
+		return true
+	})
+	c.Floor(rule+"/entry-loops", n, 1)
+	body := nows(stripComments(printNode(m.Fset, f.Decl.Body)))
+	for _, frag := range []string{"pw.count=w.Count", "pw.at=w.At", "pw.epoch=w.Epoch", "pw.seen=w.Seen", "pw.nextSeq=w.NextSeq"} {
+		c.Check(strings.Contains(body, frag), rule, f.Key+": "+frag, f.Pos(), m, "", "window field not restored: "+frag)
+	}
+	_ = info
+	// and saved entry by entry
+	if sf := c.NeedFunc(m, "kfake.Cluster.saveSeqWindows"); sf != nil {
+		sb := nows(stripComments(printNode(m.Fset, sf.Decl.Body)))
+		for _, frag := range []string{"FirstSeq:e.firstSeq", "NextSeq:e.nextSeq", "Offset:e.offset"} {
+			c.Check(strings.Contains(sb, frag), rule, sf.Key+": "+frag, sf.Pos(), m, "", "window entry field not saved: "+frag)
+		}
+	}
+}
+
 func c29kfake(c *Ctx, m *Module) {
+	c29windowRestore(c, m)
 	f := c.NeedFunc(m, "kfake.pidwindow.pushAndValidate")
 	if f == nil {
 		return
